@@ -396,7 +396,7 @@ func jobEnum(j *jobCtx) {
 			us = []Universe{&seqUniverse{kind: k, vals: []int{1, 2, 3}, maxLen: pick(3, 4), argLen: 1, cmps: []string{"nat"}}}
 		case "treeset":
 			us = []Universe{&setUniverse{kind: k, cmp: "nat", n: pick(4, 5), argLen: 1}, &setUniverse{kind: k, cmp: "revx", n: pick(4, 5), argLen: 1},
-				&setUniverse{kind: k, cmp: "half", n: pick(4, 5), argLen: 1}}
+				&setUniverse{kind: k, cmp: "half", n: pick(4, 5), argLen: 1}, &setUniverse{kind: k, cmp: "dfltTot", n: 5, argLen: 1}}
 		case "linkedhashset":
 			us = []Universe{&setUniverse{kind: k, n: pick(3, 4), argLen: 1}}
 		case "treemap":
@@ -473,6 +473,10 @@ func jobEnum(j *jobCtx) {
 						return x.Target().(*doublylinkedlist.List[int])
 					})
 				case "treeset":
+					if _, coded := x0.Target().(ordSet[float64]); coded { // float elements with both zeros under totalOrder
+						runIdxEnum[ordSet[float64]](c, func(x Inst) idxEnum[ordSet[float64]] { return x.Target().(ordSet[float64]) })
+						break
+					}
 					runIdxEnum[*treeset.Set[int]](c, func(x Inst) idxEnum[*treeset.Set[int]] { return x.Target().(*treeset.Set[int]) })
 				case "linkedhashset":
 					runIdxEnum[*linkedhashset.Set[int]](c, func(x Inst) idxEnum[*linkedhashset.Set[int]] { return x.Target().(*linkedhashset.Set[int]) })
